@@ -19,6 +19,7 @@ const (
 	opSchedule = "Schedule"
 	opMaxDelay = "MaxDelay"
 	opCancel   = "Cancel"
+	opUnsched  = "ScheduleZero" // Schedule(time.Time{}): takes the task out of the schedule AND out of both queues (withdraws every pending submission; the task stays usable)
 	opNewTask  = "NewTask"
 )
 
@@ -35,9 +36,10 @@ const (
 type Op struct {
 	Kind    string `json:"k"`
 	Task    int    `json:"t"`
-	OffMs   int    `json:"off,omitempty"` // Schedule: offset from "now" in ms (may be negative)
-	DelayMs int    `json:"d,omitempty"`   // MaxDelay value in ms (0 = disable max delay)
-	PreUs   int    `json:"pre,omitempty"` // pause before issuing the call (µs)
+	OffMs   int    `json:"off,omitempty"`  // Schedule: offset from "now" in ms (may be negative)
+	DelayMs int    `json:"d,omitempty"`    // MaxDelay value in ms (0 = disable max delay)
+	PreUs   int    `json:"pre,omitempty"`  // pause before issuing the call (µs)
+	Same    bool   `json:"same,omitempty"` // Schedule: use exactly the time value of the history's previous Schedule call
 }
 
 // TaskSpec describes the behaviour of one task function.
@@ -72,7 +74,8 @@ func (h *Hist) sig() string {
 type childSpec struct {
 	Prop   string `json:"prop"`
 	Tier   string `json:"tier"`
-	Kind   string `json:"kind"` // plain | race
+	Kind   string `json:"kind"`           // plain | race
+	Mgmt   bool   `json:"mgmt,omitempty"` // world with module management enabled (tasks on an enabled module and on its first- and second-level dependencies)
 	Hists  []Hist `json:"hists"`
 	Repeat int    `json:"repeat,omitempty"` // replay: run the history list this many times
 }
@@ -121,8 +124,10 @@ func genGate(r *vlib.Rand, id int) Hist {
 			k = opQueue
 		case x < 60:
 			k = opQueueP
-		case x < 88:
+		case x < 84:
 			k = opASAP
+		case x < 92:
+			k = opUnsched
 		default:
 			k = opCancel
 		}
@@ -197,8 +202,10 @@ func genConc(r *vlib.Rand, id int) Hist {
 			k = opQueue
 		case x < 65:
 			k = opQueueP
-		case x < 92:
+		case x < 88:
 			k = opASAP
+		case x < 94:
+			k = opUnsched
 		default:
 			k = opCancel
 		}
@@ -268,8 +275,10 @@ func genMixed(r *vlib.Rand, id int) Hist {
 			o = Op{Kind: opASAP, Task: t}
 		case x < 88:
 			o = Op{Kind: opSchedule, Task: t, OffMs: vlib.Pick(r, -50, 20, 20, 100, 100, 300)}
-		case x < 94:
+		case x < 93:
 			o = Op{Kind: opMaxDelay, Task: t, DelayMs: vlib.Pick(r, 20, 30, 50, 0, 60000)}
+		case x < 97:
+			o = Op{Kind: opUnsched, Task: t}
 		default:
 			o = Op{Kind: opCancel, Task: t}
 		}
@@ -296,6 +305,8 @@ var planNames = []string{
 	"cancel-scheduled",       // Cancel while the task waits in the schedule
 	"sched-after-queued-run", // a task that ran via the queue is later only scheduled and comes due while a queued task runs
 	"sched-order",            // sequential re-scheduling of listed tasks: the schedule stays sorted
+	"same-instant",           // two tasks scheduled for the identical time value
+	"unschedule-queued",      // Schedule(zero) on a task that waits in the queue behind a running task
 	"stale-queue-pop",        // queue handler parked between popping the task and locking it; the overdue path runs the task meanwhile
 	"stale-overdue-finished", // overdue start parked at its entry; the queue handler starts and finishes the task; then the overdue start continues
 	"stale-overdue-running",  // ... continues while the task still runs and has scheduled itself again
@@ -356,7 +367,7 @@ func caseList(cfg vlib.Cfg) []childSpec {
 	}
 	id := 0
 	mk := func(kind string, ci int) childSpec {
-		cs := childSpec{Prop: cfg.Prop, Tier: cfg.Tier, Kind: kind}
+		cs := childSpec{Prop: cfg.Prop, Tier: cfg.Tier, Kind: kind, Mgmt: ci%4 == 3}
 		r := vlib.NewRand(cfg.Seed, "C07/"+kind, uint64(ci))
 		// every child: all plans once, then a mix of the random classes
 		for _, p := range planNames {
